@@ -20,7 +20,7 @@ def main():
         if not os.path.exists(os.path.join(path, "patch.diff")):
             continue
         meta = json.load(open(meta_p)) if os.path.exists(meta_p) else {}
-        prop = meta.get("property", d[:3])
+        prop = meta.get("check") or meta.get("property", d[:3])  # "check": the change is reported by another property's check
         if meta.get("superseded") or meta.get("skip_quick"):
             print(d, prop, "skipped:", meta.get("superseded") or meta.get("skip_quick")); continue
         if sh(f"git -C /repo apply {path}/patch.diff").returncode != 0:
